@@ -152,6 +152,13 @@ Type *promoted_type(Node *node) {
   if (ty->size < ty_int->size)
     return ty_int;
 
+  // An assignment has the type and the value of its left operand, a
+  // comma expression those of its right operand: if that operand is a
+  // bit-field, so is the value of the whole expression. This covers
+  // `A.x op= B` and `++A.x`, which are lowered to those two operators.
+  while (node->kind == ND_COMMA || node->kind == ND_ASSIGN)
+    node = (node->kind == ND_COMMA) ? node->rhs : node->lhs;
+
   if (node->kind == ND_MEMBER && node->member->is_bitfield &&
       node->member->bit_width < ty_int->size * 8)
     return ty_int;
